@@ -27,6 +27,10 @@ pub struct ServerCase {
     /// connections that send half a request head and then stall (they stay open to the end)
     #[serde(default)]
     pub stalled: usize,
+    /// after each burst: this many single short connections, 2 s (virtual) apart, before the
+    /// thread count is looked at (light traffic must not keep surplus workers alive)
+    #[serde(default)]
+    pub trickle: usize,
     /// virtual idle time after each burst, in ms (0 = none)
     pub idle_ms: u64,
     /// 0: drop the server at the end with nothing outstanding; 1: drop it while a request is
@@ -46,7 +50,12 @@ pub fn server_strategy(max_burst: usize, for_c20: bool) -> BoxedStrategy<ServerC
         tape_strategy(300),
         (proptest::collection::vec(prop_oneof![3 => Just(0u8), 1 => Just(1u8), 1 => Just(2u8), 1 => Just(3u8)], 1..3), prop_oneof![3 => Just(0usize), 1 => 1usize..4]),
     )
-        .prop_map(|(bursts, reqs_per_conn, handlers, idle_ms, drop_mode, tape, (apis, stalled))| ServerCase { bursts, reqs_per_conn, handlers, apis, stalled: if idle_ms > 0 { 0 } else { stalled }, idle_ms, drop_mode, tape })
+        .prop_map(move |(bursts, reqs_per_conn, handlers, idle_ms, drop_mode, tape, (apis, stalled))| {
+            // light traffic after a big burst (C20 only): 4-6 single connections 2 s apart
+            let big = bursts.iter().any(|b| *b >= 9);
+            let trickle = if for_c20 && big && idle_ms > 0 && tape.len() % 2 == 0 { 4 + tape.len() % 3 } else { 0 };
+            ServerCase { bursts, reqs_per_conn, handlers, apis, stalled: if idle_ms > 0 { 0 } else { stalled }, trickle, idle_ms, drop_mode, tape }
+        })
         .boxed()
 }
 
@@ -235,7 +244,35 @@ pub fn run_server_case(prop: &'static str, case: &ServerCase) -> Verdict {
                 let _ = cjoin.join();
             }
             o2.lock().unwrap().served += b;
-            if c.idle_ms > 0 {
+            if c.idle_ms > 0 && c.trickle > 0 && b >= 9 {
+                // light traffic: one short connection every 2 s; the workers that were started for
+                // the burst have nothing to do all along and must retire all the same
+                ph.store(20 + bi, Ordering::SeqCst);
+                for k in 0..c.trickle {
+                    rt::thread::sleep(Duration::from_millis(2000));
+                    if let Ok(cl) = listener.connect() {
+                        cl.send(format!("GET /r{} HTTP/1.1\r\nHost: h\r\n\r\n", 900000 + k).as_bytes());
+                        cl.wait_output(|o, closed| count_finals(o).0 >= 1 || closed);
+                        cl.close_write();
+                        cl.wait_output(|_, closed| closed);
+                    }
+                }
+                // at most the workers that served one of the last three connections (within the idle
+                // period) may still be around, besides accept + 4
+                let mut live = rt::probe::live_lib_threads();
+                let mut polls = 0;
+                while live > 8 && polls < 6 {
+                    rt::thread::sleep(Duration::from_millis(500));
+                    live = rt::probe::live_lib_threads();
+                    polls += 1;
+                }
+                let mut o = o2.lock().unwrap();
+                o.idle_checks += 1;
+                if live > 8 {
+                    drop(o);
+                    viol("threads-not-reclaimed-under-light-traffic", format!("{} library threads alive after a burst of {} connections followed by {} single connections 2 s apart (expected <= accept + 4 + 3)", live, b, c.trickle));
+                }
+            } else if c.idle_ms > 0 {
                 ph.store(20 + bi, Ordering::SeqCst);
                 rt::thread::sleep(Duration::from_millis(c.idle_ms));
                 // workers beyond the minimum have been idle for the idle period: they must be gone
@@ -378,6 +415,7 @@ pub fn run_server_case(prop: &'static str, case: &ServerCase) -> Verdict {
         .class(format!("drop-mode={}", case.drop_mode))
         .class_if(o.idle_checks > 0, "idle-phase-checked")
         .class_if(case.stalled > 0, "stalled-connections")
+        .class_if(case.trickle > 0, "light-traffic-after-burst")
         .class_if(case.apis.iter().any(|a| *a != 0), "mixed-receive-apis")
         .class_if(o.lib_threads_spawned > 5, "extra-workers-spawned")
         .class_if(res.stats.preemptions > 0, "preempted")
